@@ -102,6 +102,7 @@ Classes ==
       C("histogram_bounds_wide", "any"),
       C("range_inverted", "any"), C("range_empty", "any"),
       C("date_histogram", "any"), C("date_histogram_bad_interval", "any"),
+      C("date_histogram_zero_interval", "any"),
       C("date_range_bad_date", "any"),
       C("percentiles_out_of_range", "any"), C("percentile_ranks", "any"),
       C("cardinality_precision_0", "any"), C("extended_stats_missing_string", "any"),
